@@ -2,7 +2,11 @@
    pc <s|b> <gbits> <len> <init0> <init1> <step>...
      init   n:<default> | w:<longs>:<palette> | x          longs hex comma list or -, palette decimal comma list or -
      steps  s<a>:i:v  g<a>:i  S<a>  I<a>  W<a>  X<a><b>:<hex junk>  T<b>:<hex>  C<a>
-   sv <s|b> <w> <len> <longs> <palette>                    the Coq save-data specification alone *)
+   sv <s|b> <w> <len> <longs> <palette>                    the Coq save-data specification alone
+   A read that fails leaves the destination "tainted": the model keeps ANY container of the same
+   configuration and length in the slot (the one from before the read) and every step on it prints ~
+   until a later read into it succeeds (theorem C12_failed_read_recoverable: the result of that read
+   does not depend on what the failed one left behind). *)
 let n_of_hex (s : string) : n =
   let acc = ref None in
   String.iter (fun ch ->
@@ -91,6 +95,7 @@ let () = iter_lines (fun line ->
       let c0 = init i0 in
       let c1 = init i1 in
       let slot = [| c0; c1 |] in
+      let taint = [| false; false |] in
       let idx ch = Char.code ch - 48 in
       List.iter (fun tok ->
         Buffer.add_char b ' ';
@@ -98,8 +103,12 @@ let () = iter_lines (fun line ->
         let head = List.hd parts in
         let op = head.[0] in
         let a = idx head.[1] in
+        let is_read = (op = 'X' || op = 'T') in
+        let src_tainted = (match op with 'X' -> taint.(a) | 'T' -> false | _ -> taint.(a)) in
+        ignore is_read;
         match slot.(a), op, parts with
         | None, _, _ -> Buffer.add_string b "-"
+        | Some _, _, _ when src_tainted -> Buffer.add_string b "~"
         | Some c, 's', [_; i; v] ->
             let (c', o) = pc_set set_fuel c (z_of_dec i) (z_of_dec v) in
             slot.(a) <- Some c'; Buffer.add_string b (show_out "s" o)
@@ -123,19 +132,19 @@ let () = iter_lines (fun line ->
                  let (img, _) = pc_write c in
                  let inp = img @ junk in
                  (match run_flat (pc_read (nat_of_int (List.length inp + 1)) d) inp with
-                  | FOk ((d', nn), rest) -> slot.(bi) <- Some d';
+                  | FOk ((d', nn), rest) -> slot.(bi) <- Some d'; taint.(bi) <- false;
                       Buffer.add_string b (Printf.sprintf "X=%s/%d" (dec_of_n nn) (List.length rest))
-                  | FErr _ -> slot.(bi) <- None; Buffer.add_string b "X!err"
-                  | FPanic _ -> slot.(bi) <- None; Buffer.add_string b "X!panic"
-                  | FFuel -> slot.(bi) <- None; Buffer.add_string b "X!fuel"))
+                  | FErr _ -> taint.(bi) <- true; Buffer.add_string b "X!err"
+                  | FPanic _ -> taint.(bi) <- true; Buffer.add_string b "X!panic"
+                  | FFuel -> taint.(bi) <- true; Buffer.add_string b "X!fuel"))
         | Some d, 'T', [_; h] ->
             let inp = bytes_of_hex h in
             (match run_flat (pc_read (nat_of_int (List.length inp + 1)) d) inp with
-             | FOk ((d', nn), rest) -> slot.(a) <- Some d';
+             | FOk ((d', nn), rest) -> slot.(a) <- Some d'; taint.(a) <- false;
                  Buffer.add_string b (Printf.sprintf "T=%s/%d" (dec_of_n nn) (List.length rest))
-             | FErr _ -> slot.(a) <- None; Buffer.add_string b "T!err"
-             | FPanic _ -> slot.(a) <- None; Buffer.add_string b "T!panic"
-             | FFuel -> slot.(a) <- None; Buffer.add_string b "T!fuel")
+             | FErr _ -> taint.(a) <- true; Buffer.add_string b "T!err"
+             | FPanic _ -> taint.(a) <- true; Buffer.add_string b "T!panic"
+             | FFuel -> taint.(a) <- true; Buffer.add_string b "T!fuel")
         | _ -> Buffer.add_string b ("??" ^ tok)) steps;
       print_endline (Buffer.contents b)
   | ["sv"; k; w; ln; data; pat] ->
